@@ -42,6 +42,11 @@ def check(repo, res, tier):
     borrow(repo, res, tier, c01, {'C01.N3', 'C01.N5'}, 'C09.R3')
     borrow(repo, res, tier, c02, {'C02.P2', 'C02.P4'}, 'C09.R3')
     borrow(repo, res, tier, c05, {'C05.L3'}, 'C09.R5')
+    from . import c04
+    res.rule('C09.R6', 'adopted C04.T2: a task is FINISHED only once the cluster has taken its machine back -- reported '
+                       'earlier, the algorithm releases the reservation while a reserved machine is still busy, the entry '
+                       'survives the release and is never dropped')
+    borrow(repo, res, tier, c04, {'C04.T2'}, 'C09.R6')
 
 
 def r1(repo, res, canon, pc, logic):
